@@ -172,7 +172,7 @@ example : (runForms 100 progFail {}).1 = .error 42 := by decide
 example : (runForms 100 progFail {}).2.globals = [(0, 1)] := by decide
 example : ((runForms 100 progFail {}).2.stack, (runForms 100 progFail {}).2.frames.length) = ([], 0) := by decide
 
-/-- an error caught by a handler at the top level (dummy frame regime), then a second error that is not caught -/
+/-- an error caught by a handler at the top level, then a second error that is not caught -/
 def progHandled : List Code :=
   [.handle true [.pop, .push 5] [.push 1, .fail 3], .define 1, .push 2, .callcc [.push 3, .fail 4]]
 
